@@ -8,9 +8,49 @@ package args
 //@ ghost func argsNode(a *Args) ipld.Node
 //@ ghost func argsNodeErr(a *Args) error
 //@
+//@ // argsNode / argsNodeErr name what ToIPLD returns (ToIPLD is a deterministic function of the Args);
+//@ // that naming is assumed, the frame and the safety of the body are verified.
 //@ func (*Args).ToIPLD
-//@   trusted
 //@   requires a != nil
-//@   ensures result1 == argsNodeErr(a)
-//@   ensures result1 == nil ==> result0 == argsNode(a) && result0 != nil
-//@   assigns a.Keys
+//@   assumes result1 == argsNodeErr(a)
+//@   assumes result1 == nil ==> result0 == argsNode(a)
+//@   ensures result1 == nil ==> result0 != nil
+//@   assigns [C20] nothing
+//@
+//@ // ---- C20: read-only operations write nothing that existed before the call -------------------------
+//@ func (*Args).GetNode
+//@   requires a != nil
+//@   assigns [C20] nothing
+//@ func (*Args).Iter
+//@   requires a != nil
+//@   assigns [C20] nothing
+//@ func (*Args).Iter$1
+//@   requires a != nil && yield != nil
+//@   assigns [C20] nothing
+//@   loop 0: invariant 0 <= k && k <= len(a.Keys)
+//@           decreases len(a.Keys) - k
+//@ func (*Args).ToIPLD$1
+//@   requires a != nil && ma != nil
+//@   assigns [C20] nothing
+//@   loop 0: invariant 0 <= k && k <= len(keys)
+//@           decreases len(keys) - k
+//@ func (*Args).Equals
+//@   requires a != nil && other != nil
+//@   assigns [C20] nothing
+//@   loop 0: invariant 0 <= k && k <= len(a.Keys)
+//@           decreases len(a.Keys) - k
+//@ func (*Args).String
+//@   requires a != nil
+//@   assigns [C20] nothing
+//@   loop 0: invariant 0 <= k && k <= len(keys)
+//@           decreases len(keys) - k
+//@ func (*Args).ReadOnly
+//@   assigns [C20] nothing
+//@ func (*Args).Clone
+//@   requires a != nil
+//@   assigns [C20] nothing
+//@   loop 0: invariant fresh(res)
+//@ func (*Args).Validate
+//@   requires a != nil
+//@   assigns [C20] nothing
+//@   loop 0: invariant true
